@@ -652,11 +652,16 @@ func (p Prop) Run(r *core.Run) *core.Violation {
 	if r.Tier == "thorough" {
 		maxSteps = 60
 	}
-	n := 1 + r.T.Intn(maxSteps)
 	var ops []op
 	mut, rt := 0, 0
 	h := fnv.New64a()
-	for i := 0; i < n; i++ {
+	for i := 0; i < maxSteps; i++ {
+		// "one more step?" is drawn before every step (0 = stop), so that deleting a step
+		// from the tape deletes one contiguous block and shrinking is not stuck on a length
+		// that was fixed up front
+		if i > 0 && r.T.Intn(18) == 0 {
+			break
+		}
 		o := genOp(r.T)
 		ops = append(ops, o)
 		fmt.Fprint(h, o.String(), ";")
